@@ -17,8 +17,11 @@ def guardFixed : List String :=
 /-- `true` when the tree carries fixes/F7_stale_index.patch (model parameter `fixed`) -/
 def treeFixed : Bool := Nsq.Gen.Life.removeGuard == guardFixed
 
-theorem remove_guard_known :
-    Nsq.Gen.Life.removeGuard = guardUnfixed ∨ Nsq.Gen.Life.removeGuard = guardFixed := by decide
+/-- F7 is committed (/repo 80a0e5f): only the patched guard is accepted (audit B12) — `Props.C08.no_fault` is a
+theorem about `fixed = true`, and this tie is what makes it a statement about the tree -/
+theorem remove_guard_known : Nsq.Gen.Life.removeGuard = guardFixed := by decide
+
+theorem tree_fixed : treeFixed = true := by decide
 
 /-- `Channel.Empty`: lock, reset both structures, the hook, every consumer's counter adjustment
 (`client.Empty()`: zero it — or, with fixes/F13_empty_vs_inflight_accounting.patch, `Discarded(n)`:
@@ -53,7 +56,9 @@ def scanOneSection : List String := ["PeekAndShift", "delete", "TimedOutMessage"
 /-- model parameter `St.scanAtomic` for this tree -/
 def treeScanAtomic : Bool := Nsq.Gen.Life.scanCalls == scanOneSection
 
-theorem scan_shape_known :
-    Nsq.Gen.Life.scanCalls = scanTwoSections ∨ Nsq.Gen.Life.scanCalls = scanOneSection := by decide
+/-- F16 is committed: only the one-section scan is accepted (audit B12) -/
+theorem scan_shape_known : Nsq.Gen.Life.scanCalls = scanOneSection := by decide
+
+theorem tree_scan_atomic : treeScanAtomic = true := by decide
 
 end Nsq.Tie.Life
